@@ -172,6 +172,9 @@ func (c *c11Checker) After(w *World, ev *Event) []Failure {
 			names = append(names, n)
 		}
 		sort.Strings(names)
+		// what a read returned stays what it was: the caller keeps the slice while it goes on reading
+		var heldG, heldCopy []string
+		heldName := ""
 		for _, n := range names {
 			var all []string
 			for _, p := range real {
@@ -180,6 +183,13 @@ func (c *c11Checker) After(w *World, ev *Event) []Failure {
 				}
 			}
 			g := sh.SP.GetAll(n)
+			if heldG != nil && strings.Join(heldG, "\x01") != strings.Join(heldCopy, "\x01") {
+				fs = append(fs, fail("C11.read", "handle", fmt.Sprintf("s%d", sid), "name", q(heldName), "list", pairsString(real), "why", "the slice GetAll returned for this name was overwritten by a later GetAll("+q(n)+")", "was", fmt.Sprintf("%q", heldCopy), "now", fmt.Sprintf("%q", heldG)))
+				break
+			}
+			if len(g) > 0 {
+				heldG, heldCopy, heldName = g, append([]string(nil), g...), n
+			}
 			first := ""
 			if len(all) > 0 {
 				first = all[0]
@@ -266,6 +276,9 @@ func (c *c12Checker) After(w *World, ev *Event) []Failure {
 				kind = "earlier"
 			}
 			ctx := []string{"url", fmt.Sprintf("u%d", id), "handle", fmt.Sprintf("s%d(%s)", sid, kind), "href", q(o.Href), "after", ev.Op.String()}
+			if uh.QW == 2 {
+				continue // a kept pair was written to from outside any call: armed again by the next list operation
+			}
 			if uh.QW == 1 {
 				s := sh.SP.String()
 				if o.Query != s {
@@ -342,8 +355,25 @@ func (c *c13Checker) After(w *World, ev *Event) []Failure {
 	}
 	var fs []Failure
 	// isolation: every object other than the targeted one is unchanged
+	// URLs that share a list at the caller's request are one object as far as isolation goes; they
+	// have no pristine twin either
+	same := func(id int) bool {
+		return ev.Target >= 0 && w.Ent[id] != 0 && w.Ent[id] == w.Ent[ev.Target]
+	}
+	if ev.Op.K == "setsp" {
+		if uh := w.U[ev.Target]; ev.Target >= 0 && uh != nil {
+			uh.Twin = nil // the twin protocol has no counterpart for replacing the list
+			c.tried[ev.Target] = true
+		}
+		for id, g := range w.Ent {
+			if g != 0 && w.U[id] != nil {
+				w.U[id].Twin = nil
+				c.tried[id] = true
+			}
+		}
+	}
 	for _, id := range w.uids() {
-		if id == ev.Target || id == ev.Created {
+		if id == ev.Target || id == ev.Created || same(id) {
 			continue
 		}
 		p, ok := w.Prev[id]
@@ -363,7 +393,7 @@ func (c *c13Checker) After(w *World, ev *Event) []Failure {
 	}
 	for _, sid := range w.sids() {
 		sh := w.S[sid]
-		if sh.Of == ev.Target || sid == ev.CreatedS {
+		if sh.Of == ev.Target || sid == ev.CreatedS || same(sh.Of) {
 			continue
 		}
 		p, ok := w.PrevL[sid]
